@@ -91,7 +91,7 @@ impl Value {
     #[verifier::external_body] pub fn source_loc(&self) -> (r: Option<&Loc>) { unimplemented!() }
     /// Value::set: the set of the given values (unit value_set), with the given location
     #[verifier::external_body] pub fn set(vals: VxIter<Value>, loc: Option<Loc>) -> (r: Value) ensures r.value == mk_set(kinds_of(vals.items())) { unimplemented!() }
-    #[verifier::external_body] pub fn record(pairs: VxIter<(SmolStr, Value)>, loc: Option<Loc>) -> (r: Value) ensures r.value == mk_record(pairs.items().map_values(|p: (SmolStr, Value)| (p.0, p.1.value))) { unimplemented!() }
+    #[verifier::external_body] pub fn record(pairs: VxIter<(SmolStr, Value)>, loc: Option<Loc>) -> (r: Value) ensures r.value == mk_record(pair_kinds(pairs.items())) { unimplemented!() }
     // the get_as_* contracts are proved in unit eval_ops (same text)
     #[verifier::external_body] pub fn get_as_bool(&self) -> (r: Result<bool>)
         ensures match self.value { ValueKind::Lit(Literal::Bool(b)) => r is Ok && r->Ok_0 == b, _ => r is Err && r->Err_0 is TypeError } { unimplemented!() }
@@ -114,6 +114,7 @@ pub uninterp spec fn set_elems(s: Set) -> Seq<Value>;
 pub uninterp spec fn mk_set(ks: Seq<ValueKind>) -> ValueKind;
 pub open spec fn kinds_of(vs: Seq<Value>) -> Seq<ValueKind> { vs.map_values(|v: Value| v.value) }
 pub uninterp spec fn mk_record(ks: Seq<(SmolStr, ValueKind)>) -> ValueKind;
+pub open spec fn pair_kinds(s: Seq<(SmolStr, Value)>) -> Seq<(SmolStr, ValueKind)> { s.map_values(|p: (SmolStr, Value)| (p.0, p.1.value)) }
 /// Some(uids) if every element of the set is an entity literal
 pub uninterp spec fn entity_elems(s: Set) -> Option<Seq<EntityUID>>;
 /// the abstract content of a cedar Set (its representation is under contract in unit value_set, same contract text)
